@@ -77,15 +77,27 @@ pub(super) async fn run_loop<C>(
     }
 
     trace!("exited run_loop");
+    #[cfg(feature = "verif-hooks")]
+    crate::verif_hooks::emit(crate::verif_hooks::LoopEvent::Exit);
 }
 
 /// Time to wait for another command to send before starting the idle loop.
 const NEXT_COMMAND_IDLE_TIMEOUT: Duration = Duration::from_millis(100);
 
+#[cfg(feature = "verif-hooks")]
+pub(super) fn verif_next_command_idle_timeout() -> Duration {
+    NEXT_COMMAND_IDLE_TIMEOUT
+}
+
 async fn run_loop_iteration<C>(mut state: State<C>) -> Result<State<C>, ()>
 where
     C: AsyncRead + AsyncWrite + Unpin,
 {
+    #[cfg(feature = "verif-hooks")]
+    crate::verif_hooks::emit(crate::verif_hooks::LoopEvent::IterStart {
+        idling: matches!(state.loop_state, LoopState::Idling),
+    });
+
     match state.loop_state {
         LoopState::Idling => {
             // We are idling (the last command sent to the server was an IDLE).
@@ -94,9 +106,15 @@ where
             // state change notification.
             tokio::select! {
                 response = state.connection.receive() => {
+                    #[cfg(feature = "verif-hooks")]
+                    crate::verif_hooks::emit(crate::verif_hooks::LoopEvent::SelectReply);
                     handle_idle_response(&mut state, response).await?;
                 }
                 command = state.commands.recv() => {
+                    #[cfg(feature = "verif-hooks")]
+                    crate::verif_hooks::emit(crate::verif_hooks::LoopEvent::SelectCommand {
+                        some: command.is_some(),
+                    });
                     handle_command(&mut state, command).await?;
                 }
             }
@@ -106,6 +124,8 @@ where
 
             let response = state.connection.receive().await.transpose().ok_or(())?;
             trace!("response to command received");
+            #[cfg(feature = "verif-hooks")]
+            crate::verif_hooks::emit(crate::verif_hooks::LoopEvent::Reply);
 
             let _ = responder.send(response.map_err(Into::into));
 
@@ -115,6 +135,8 @@ where
             match next_command.await {
                 Ok(Some((command, responder))) => {
                     trace!(?command, "next command immediately available");
+                    #[cfg(feature = "verif-hooks")]
+                    crate::verif_hooks::emit(crate::verif_hooks::LoopEvent::NextInWindow);
                     match state.connection.send_list(command).await {
                         Ok(_) => state.loop_state = LoopState::WaitingForCommandReply(responder),
                         Err(e) => {
@@ -127,6 +149,8 @@ where
                 Ok(None) => return Err(()),
                 Err(_) => {
                     trace!("reached next command timeout, idling");
+                    #[cfg(feature = "verif-hooks")]
+                    crate::verif_hooks::emit(crate::verif_hooks::LoopEvent::WindowExpired);
 
                     // Start idling again
                     state.loop_state = LoopState::Idling;
@@ -167,6 +191,8 @@ where
         Ok(None) => return Err(()),
         Ok(Some(res)) => match res.into_single_frame() {
             Ok(f) => {
+                #[cfg(feature = "verif-hooks")]
+                crate::verif_hooks::emit(crate::verif_hooks::LoopEvent::NoidleReply);
                 if let Some(subsystem) = Subsystem::from_frame(f) {
                     debug!(?subsystem, "state change");
                     let _ = state
